@@ -4,6 +4,7 @@ package main
 
 import (
 	"fmt"
+	"go/token"
 	"go/types"
 
 	"golang.org/x/tools/go/ssa"
@@ -393,6 +394,39 @@ func ruleDumpSkip(w *World, r *Report) {
 				return okn
 			})
 			r.Check(poss != nil && !poss[k.event], rule, w.InstrPos(c), w.Name(an), describe(c), "a child index is collected only for a node whose kind is not event", "event nodes are enumerated as children: the decompiled text depends on event mode")
+			// nothing else filters children: the dominating conditions are the loop guard, the parent-index match and the kind test
+			var extra []string
+			for _, f := range factsAt(c.Block()) {
+				if _, _, _, okk := k.kindTest(f.Cond); okk {
+					continue
+				}
+				if bo, ok := f.Cond.(*ssa.BinOp); ok {
+					if bo.Op == token.LSS {
+						if _, okl := lenArg(bo.Y); okl {
+							continue // loop guard
+						}
+					}
+					if bo.Op == token.EQL || bo.Op == token.NEQ {
+						isParent := func(v ssa.Value) bool {
+							addr, ok := isLoad(v)
+							if !ok {
+								return false
+							}
+							ia, ok := addr.(*ssa.IndexAddr)
+							if !ok {
+								return false
+							}
+							_, okp := loadOfField(ia.X, "Expr", "parentIdx")
+							return okp
+						}
+						if isParent(bo.X) || isParent(bo.Y) {
+							continue
+						}
+					}
+				}
+				extra = append(extra, describe(f.Cond))
+			}
+			r.Check(len(extra) == 0, rule, w.InstrPos(c), w.Name(an), "conditions that select a child", "only the parent index and the node kind decide whether a node is a child", fmt.Sprintf("children are also filtered by %v: operands that happen to match are dropped from the decompiled text", extra))
 		})
 	}
 	if !found {
@@ -459,6 +493,8 @@ var c12Witnesses = []Witness{
 		{File: "engine.go", Old: "		default:\n			reportEvent(e, os, osTop, curt.value)\n			continue\n		}\n\n		for matchesShortCircuit(res, curt) {", New: "		default:\n			reportEvent(e, os, osTop, curt.value)\n			os[osTop+1] = nil\n			continue\n		}\n\n		for matchesShortCircuit(res, curt) {"}}},
 	{Name: "dump-counts-event-nodes", Rule: "R-DUMPSKIP", Edits: []Edit{
 		{File: "util.go", Old: "			if p == idx && e.nodes[i].getNodeType() != event {", New: "			if p == idx && e.nodes[i].getNodeType() != cond {"}}},
+	{Name: "dump-skips-children-by-value", Rule: "R-DUMPSKIP", Edits: []Edit{
+		{File: "util.go", Old: "			if p == idx && e.nodes[i].getNodeType() != event {", New: "			if p == idx && e.nodes[i].getNodeType() != event && e.nodes[i].value != \"fi\" {"}}},
 	{Name: "events-installed-for-infix", Rule: "R-EVGATE", Edits: []Edit{
 		{File: "compiler.go", Old: "	if cc.CompileOptions[ReportEvent] || cc.CompileOptions[Debug] {", New: "	if cc.CompileOptions[ReportEvent] || cc.CompileOptions[Debug] || cc.CompileOptions[InfixNotation] {"}}},
 	{Name: "benign-snapshot-with-copy", Benign: true, Edits: []Edit{
